@@ -119,9 +119,14 @@ func (r *RequestContext) Request() *heimdall.Request {
 func (r *RequestContext) Headers() map[string]string { return r.reqHeaders }
 
 // Header returns the value of the header with the given name. As for requests
-// received via HTTP, the name is not case-sensitive.
+// received via HTTP, the name is not case-sensitive and Host gives the request host.
 func (r *RequestContext) Header(name string) string {
-	return r.reqHeaders[http.CanonicalHeaderKey(name)]
+	key := http.CanonicalHeaderKey(name)
+	if key == "Host" {
+		return r.reqURL.Host
+	}
+
+	return r.reqHeaders[key]
 }
 
 func (r *RequestContext) Cookie(name string) string {
